@@ -125,6 +125,8 @@ impl Engine for FileE2e {
         // how the application holds the emitter: 0 as is, 1 Arc, 2 Option, 3 Wrap, 4/5 And with Empty on either side (And splits the timeout),
         // 6 installed in a runtime slot through `emit::setup()`: events go through the slot's runtime, flushes through the `Init` handle
         let holder = ch.weighted(&[4, 1, 1, 1, 1, 1, 2]);
+        // builder call order: the writer installed first (`set_with_writer`) or last (`set(..).<options>.writer(..)`)
+        let writer_late = writer_kind != 0 && ch.chance(1, 2);
         let max_size = *ch.pick(&[1usize << 30, 300, 120]);
         // (overflow mode: one big file, so retention never deletes what the oracle looks for)
         let max_size = if overflow { 1usize << 30 } else { max_size };
@@ -149,7 +151,7 @@ impl Engine for FileE2e {
         sched.lock().clock_reading_cost_ns = 1;
         let prev = simthread::enter(&sched);
         sched.log(format!(
-            "config: sets={} events={n_events} fault_budget={fault_budget} stall_mode={stall_mode} reuse={reuse} max_size={max_size} final_flush={final_flush} writer_kind={writer_kind} holder={holder}",
+            "config: sets={} events={n_events} fault_budget={fault_budget} stall_mode={stall_mode} reuse={reuse} max_size={max_size} final_flush={final_flush} writer_kind={writer_kind} writer_late={writer_late} holder={holder}",
             if two_sets { 2 } else { 1 }
         ));
 
@@ -215,43 +217,49 @@ impl Engine for FileE2e {
         let fs_b = mk_fs();
         // writer variants: 0 default JSON writer; 1 custom, record not terminated (emit must append the separator);
         // 2 custom, record already terminated (emit must not append another); 3 custom with a two-byte separator
-        let builder_a = match writer_kind {
-            1 => emit_file::set_with_writer(
-                "logs/a/app.log",
-                |buf, evt| {
-                    use emit::Props as _;
-                    let m = evt.props().get("marker").map(|v| v.to_string()).unwrap_or_default();
-                    buf.extend_from_slice(format!("marker={m}").as_bytes());
+        type WriterFn = Box<dyn Fn(&mut emit_file::FileBuf, &emit::Event<&dyn emit::props::ErasedProps>) -> std::io::Result<()> + Send + Sync>;
+        let marker_of = |evt: &emit::Event<&dyn emit::props::ErasedProps>| -> String {
+            use emit::Props as _;
+            evt.props().get("marker").map(|v| v.to_string()).unwrap_or_default()
+        };
+        let custom: Option<(WriterFn, &'static [u8])> = match writer_kind {
+            // record not terminated (emit must append the separator)
+            1 => Some((
+                Box::new(move |buf, evt| {
+                    buf.extend_from_slice(format!("marker={}", marker_of(evt)).as_bytes());
                     Ok(())
-                },
+                }),
                 b"\n",
-            ),
-            2 => emit_file::set_with_writer(
-                "logs/a/app.log",
-                |buf, evt| {
-                    use emit::Props as _;
-                    let m = evt.props().get("marker").map(|v| v.to_string()).unwrap_or_default();
-                    buf.extend_from_slice(format!("marker={m}\n").as_bytes());
+            )),
+            // record already terminated (emit must not append another)
+            2 => Some((
+                Box::new(move |buf, evt| {
+                    buf.extend_from_slice(format!("marker={}\n", marker_of(evt)).as_bytes());
                     Ok(())
-                },
+                }),
                 b"\n",
-            ),
-            3 => emit_file::set_with_writer(
-                "logs/a/app.log",
-                |buf, evt| {
-                    use emit::Props as _;
-                    let m = evt.props().get("marker").map(|v| v.to_string()).unwrap_or_default();
-                    buf.extend_from_slice(format!("marker={m}").as_bytes());
+            )),
+            // a two-byte separator
+            3 => Some((
+                Box::new(move |buf, evt| {
+                    buf.extend_from_slice(format!("marker={}", marker_of(evt)).as_bytes());
                     Ok(())
-                },
+                }),
                 b"\r\n",
-            ),
-            5 => emit_file::set_with_writer(
-                "logs/a/app.log",
-                |buf, evt| {
+            )),
+            // ends with the LAST byte of the separator only: the full separator must still be appended
+            4 => Some((
+                Box::new(move |buf, evt| {
+                    buf.extend_from_slice(format!("marker={}\n", marker_of(evt)).as_bytes());
+                    Ok(())
+                }),
+                b"\r\n",
+            )),
+            // fails for every third event AFTER having written part of the record
+            5 => Some((
+                Box::new(move |buf, evt| {
                     use emit::Props as _;
-                    // fails for every third event AFTER having written part of the record
-                    let m = evt.props().get("marker").map(|v| v.to_string()).unwrap_or_default();
+                    let m = marker_of(evt);
                     let n = evt.props().pull::<i64, _>("n").unwrap_or(0);
                     if n % 3 == 1 {
                         buf.extend_from_slice(b"partial-record-of-a-failed-event:");
@@ -260,27 +268,25 @@ impl Engine for FileE2e {
                     }
                     buf.extend_from_slice(format!("marker={m}").as_bytes());
                     Ok(())
-                },
+                }),
                 b"\n",
-            ),
-            4 => emit_file::set_with_writer(
-                "logs/a/app.log",
-                |buf, evt| {
-                    use emit::Props as _;
-                    // ends with the LAST byte of the separator only: the full separator must still be appended
-                    let m = evt.props().get("marker").map(|v| v.to_string()).unwrap_or_default();
-                    buf.extend_from_slice(format!("marker={m}\n").as_bytes());
-                    Ok(())
-                },
-                b"\r\n",
-            ),
-            _ => emit_file::set("logs/a/app.log"),
+            )),
+            _ => None,
         };
         let sep_a: &'static [u8] = if writer_kind == 3 || writer_kind == 4 { b"\r\n" } else { b"\n" };
+        let builder_a = match custom {
+            None => emit_file::set("logs/a/app.log").reuse_files(reuse).max_file_size_bytes(max_size).roll_by_minute(),
+            Some((w, sep)) if writer_late => emit_file::set("logs/a/app.log")
+                .reuse_files(reuse)
+                .max_file_size_bytes(max_size)
+                .roll_by_minute()
+                .writer(move |buf, evt| w(buf, evt), sep),
+            Some((w, sep)) => emit_file::set_with_writer("logs/a/app.log", move |buf, evt| w(buf, evt), sep)
+                .reuse_files(reuse)
+                .max_file_size_bytes(max_size)
+                .roll_by_minute(),
+        };
         let set_a = builder_a
-            .reuse_files(reuse)
-            .max_file_size_bytes(max_size)
-            .roll_by_minute()
             .verif_spawn_with(fs_a.clone(), clock.clone(), SimRng(Arc::new(Mutex::new(Rng::new(rng_seed)))));
         let set_b = if two_sets {
             Some(
@@ -580,6 +586,47 @@ impl Engine for FileE2e {
                                 "C10",
                                 "mangled_record",
                                 format!("a record in {path} holds more than one event: {:?}", String::from_utf8_lossy(line)),
+                            );
+                        }
+                    }
+                }
+            }
+            // C11 through the builder: the configured size limit reaches the worker. Two events with a successful flush
+            // between them were written by different batches; the later batch may only have been appended to the file
+            // of the earlier one if it fitted under the limit, so its events end at or below the limit
+            if cl.after_burst.is_none() {
+                let index_of = |m: &str| -> Option<usize> { m[2..8].parse::<usize>().ok().map(|n| n - 1) };
+                for (path, data, _, _) in fs_a.current_view() {
+                    let mut found: Vec<(usize, usize)> = Vec::new(); // (event index, end offset of its marker)
+                    let mut i = 0;
+                    while i + 10 <= data.len() {
+                        if &data[i..i + 2] == b"MK" && &data[i + 8..i + 10] == b"KM" && data[i + 2..i + 8].iter().all(|b| b.is_ascii_digit()) {
+                            if let Some(ix) = index_of(&String::from_utf8_lossy(&data[i..i + 10])) {
+                                found.push((ix, i + 10));
+                            }
+                            i += 10;
+                        } else {
+                            i += 1;
+                        }
+                    }
+                    for w in found.windows(2) {
+                        let ((a, _), (b, end_b)) = (w[0], w[1]);
+                        // positions in the emit sequence (events are emitted in index order by one client)
+                        let (pa, pb) = (
+                            cl.emitted.iter().position(|(i, _)| *i == a),
+                            cl.emitted.iter().position(|(i, _)| *i == b),
+                        );
+                        let (Some(pa), Some(pb)) = (pa, pb) else { continue };
+                        let flushed_between = cl.flushes.iter().any(|(n_before, _, _, ok, _, _)| *ok && *n_before > pa && *n_before <= pb);
+                        if flushed_between && end_b > max_size {
+                            out.violate(
+                                "C11",
+                                "size_limit_ignored",
+                                format!(
+                                    "{path}: event MK{:06}KM was appended by a later batch than MK{:06}KM (a flush returned true in between) although it ends at byte {end_b}, past max_file_size_bytes = {max_size}",
+                                    b + 1,
+                                    a + 1
+                                ),
                             );
                         }
                     }
